@@ -117,7 +117,24 @@ def run(ctx, F):
     else:
         n, cond = guard
         ok, why = default_guard_ok(cond)
-        ret_ok = "return Ok(())" in A.show(n["then"]["stmts"][0].get("x")) if n["then"]["stmts"] else False
+        # the guarded path performs no write: either it returns Ok(()) at once, or the branch is empty and every
+        # write of the function sits in the else part of this `if`
+        def writes(x):
+            return [m for m in A.walk(x) if m.get("e") == "mcall" and m["m"] in ("insert", "define_global", "define", "set_variable", "store", "extend", "entry")]
+        then_writes = writes(n["then"])
+        returns = bool(n["then"]["stmts"]) and "return Ok(())" in A.show(n["then"]["stmts"][-1].get("x"))
+        if returns:
+            ret_ok = not then_writes
+        else:
+            # statements that follow the guard in its block must not write (they would run on the guarded path too)
+            after = []
+            for blk in A.walk(sv["body"]):
+                if blk.get("e") == "block":
+                    for i, st in enumerate(blk["stmts"]):
+                        if st.get("s") == "expr" and A.strip(st["x"]) is n:
+                            after = blk["stmts"][i + 1:]
+            ret_ok = not then_writes and n.get("else") is not None and not any(writes(st) for st in after) and not any(
+                st.get("s") == "expr" and A.strip(st["x"]).get("e") == "ret" for st in n["then"]["stmts"])
         if ok and ret_ok:
             ctx.ok("F5-default-guard", "!default skips the assignment iff the current value is neither undefined nor null", None)
         else:
